@@ -174,8 +174,12 @@ def run_case(ctx, case):
         ctx.violation('harness/paragraph-count', 'generator and parser disagree on paragraphs for %r' % text)
         return
     mutated = 0
+    adj = ctx.extra.setdefault('op_adjacencies_observed', set())
+    prev_kind = 'start'
     for step, op in enumerate(case['ops']):
         kind, pi, key = op[0], op[1], op[2]
+        adj.add('%s->%s' % (prev_kind, op[0]))
+        prev_kind = op[0]
         fields = model['paras'][pi]
         live = paras[pi]
         before = rtdoc.doc_text(model)
